@@ -23,8 +23,10 @@ import (
 type built struct{ Scheme, Host, EscapedPath, RawQuery, Full string }
 
 type generation struct {
-	name  string
-	build func(base *url.URL, root, rp string, q *string, body bool) (*built, *http.Request, error)
+	name         string
+	build        func(base *url.URL, root, rp string, q *string, body bool) (*built, *http.Request, error)
+	encodedPath  func(root, key string) string
+	encodedQuery func(name, value string) string
 }
 
 var gens = []generation{
@@ -34,14 +36,14 @@ var gens = []generation{
 			return nil, nil, err
 		}
 		return &built{x.Scheme, x.Host, x.EscapedPath, x.RawQuery, x.Full}, r, nil
-	}},
+	}, gen2.EncodedPath, gen2.EncodedQuery},
 	{"root", func(b *url.URL, root, rp string, q *string, body bool) (*built, *http.Request, error) {
 		x, r, err := gen1.Build(b, root, rp, q, body)
 		if err != nil {
 			return nil, nil, err
 		}
 		return &built{x.Scheme, x.Host, x.EscapedPath, x.RawQuery, x.Full}, r, nil
-	}},
+	}, gen1.EncodedPath, gen1.EncodedQuery},
 }
 
 // reference percent-encoder for path segments (written from RFC 3986 unreserved + the Rest.li rule
@@ -79,6 +81,7 @@ func segChoices(root string) []ctxSeg {
 type baseCase struct {
 	url         string
 	ctx         string // expected context path (after removing trailing slash and a final root segment)
+	rawCtx      string // the base path without trailing slash: the context path for any other root resource
 	unspecified bool   // root name is a complete non-final segment
 	desc        string
 }
@@ -127,7 +130,7 @@ func enumerateBases(root string) []baseCase {
 					for _, s := range cur {
 						kinds = append(kinds, s.kind)
 					}
-					out = append(out, baseCase{full, expCtx, unspec, fmt.Sprintf("scheme=%q host=%q ctx=%v slash=%v", sc, h, kinds, slash)})
+					out = append(out, baseCase{full, expCtx, p, unspec, fmt.Sprintf("scheme=%q host=%q ctx=%v slash=%v", sc, h, kinds, slash)})
 				}
 			}
 		}
@@ -150,6 +153,11 @@ var hostileKeys = []string{
 	"''", "(a:b)", "List(1,2)", "a,b", "a:b", "a b", "a+b", "é", "日本", "\x00", "\x7f", "&", "=", "a&b=c", "urn:li:x:(1,2)", "~", "!", "*",
 }
 
+// keys whose encoded form keeps characters literal that other escapers (form / query rules) treat specially
+var encoderKeys = []string{
+	"a+b", "jane.doe+restli@example.com", "1+1=2", "x/y+z", "a b+c", "$!*", "a=b&c", "k@h", "+", "++", " + ", "a%2Bb", "é+日",
+}
+
 var queries = []string{
 	"", "q=x", "ids=List(1,2)", "a=(b:c,d:List(e))", "q=x&p=%25", "p=a%20b", "p=a+b", "p=%2F%3F", "p=?/;", "action=do", "q=s&start=0&count=10",
 	"p=" + strings.Repeat("x", 300), "p=''", "p=%C3%A9",
@@ -159,7 +167,7 @@ func main() {
 	run := ev.Start("C15")
 	defer run.Guard()
 	run.Rule("case = (generation, resolver base URL from the context-path grammar, resource path with percent-encoded hostile keys, query, with/without body); the library-built request URL is compared byte for byte " +
-		"(scheme, host, EscapedPath, RawQuery) with the reference builder ctx(base)+path?query; non-trivial = context path non-empty or key contains a character that needs escaping or a dot segment; " +
+		"(scheme, host, EscapedPath, RawQuery) with the reference builder ctx(base)+path?query; non-trivial = context path non-empty or key contains a character that needs escaping, a dot segment or a literal sub-delimiter; paths and queries come both from the reference escaper and from the library's own path / query writers; every third case is followed by a second request for another root resource on the same resolver URL value; " +
 		"distinct = distinct (base, path, query) triples. Contexts that hold the root name as a complete non-final segment are executed but only checked for scheme/host/query (left unspecified by the property).")
 	run.Assume("the context-path rule: trailing slash dropped; a final segment equal to the root resource name is dropped so that the root appears exactly once")
 	rng := rand.New(rand.NewSource(run.Seed))
@@ -192,6 +200,13 @@ func main() {
 			for _, k := range hostileKeys {
 				paths = append(paths, "/"+root+"/"+refEscape(k))
 			}
+			for _, k := range append(append([]string(nil), encoderKeys...), hostileKeys...) {
+				// the path exactly as the library's own path writer encodes the key
+				if ep := g.encodedPath(root, k); ep != "/"+root+"/"+refEscape(k) {
+					paths = append(paths, ep)
+				}
+			}
+			run.Count("paths."+g.name, len(paths))
 			paths = append(paths, "/"+root+"/"+refEscape("k1")+"/sub", "/"+root+"/1/"+root+"/2", "/"+root+"/"+refEscape("a/b")+"/sub/"+refEscape(".."), "/"+root+"/(a:1,b:List(x))")
 			for bi, b := range bases {
 				base, err := url.Parse(b.url)
@@ -207,6 +222,11 @@ func main() {
 					var q *string
 					if queries[qi] != "" || (bi+pi)%2 == 0 {
 						q = &queries[qi]
+					}
+					if (bi+pi)%3 == 1 {
+						// a query exactly as the library's own query writer encodes a parameter value
+						eq := g.encodedQuery("p", encoderKeys[(bi+pi)%len(encoderKeys)]+hostileKeys[(bi*7+pi)%len(hostileKeys)])
+						q = &eq
 					}
 					withBody := (bi+pi)%5 == 0
 					n++
@@ -240,7 +260,28 @@ func main() {
 						run.Violation(g.name+"/path/"+classify(p, b), desc)
 						continue
 					}
-					if b.ctx != "" || strings.ContainsAny(p, "%.") {
+					// the same resolver URL serves the next request, for another root resource: nothing of this request may
+					// stick to it
+					if (bi+pi)%3 == 0 {
+						run.Eval(1)
+						p2 := "/zz/" + refEscape(hostileKeys[(bi+pi)%len(hostileKeys)])
+						got2, _, err := g.build(base, "zz", p2, q, false)
+						desc2 := map[string]any{"generation": g.name, "base": b.url, "base_shape": b.desc, "first_request": map[string]any{"root": root, "resource_path": p, "query": q},
+							"second_request": map[string]any{"root": "zz", "resource_path": p2, "query": q}}
+						if err != nil {
+							desc2["error"] = err.Error()
+							run.Violation(g.name+"/second-request-on-same-resolver-url/build-error", desc2)
+							continue
+						}
+						desc2["got"] = got2
+						if got2.Scheme != base.Scheme || got2.Host != base.Host || got2.RawQuery != expQuery || got2.EscapedPath != b.rawCtx+p2 {
+							desc2["expected_path"], desc2["expected_query"] = b.rawCtx+p2, expQuery
+							run.Violation(g.name+"/second-request-on-same-resolver-url/"+classify(p, b), desc2)
+							continue
+						}
+						run.Count("second_requests", 1)
+					}
+					if b.ctx != "" || strings.ContainsAny(p, "%.+@$=&") {
 						run.Distinct(fmt.Sprintf("%s|%s|%s|%v", g.name, b.url, p, expQuery))
 					}
 					if n < 4 || n%40009 == 0 {
@@ -278,6 +319,7 @@ func main() {
 	_ = rng
 	run.Set("generations", []string{"v2", "root"})
 	run.Require("wire.requests", 20)
+	run.Require("second_requests", 100)
 	run.Finish()
 }
 
@@ -301,6 +343,9 @@ func classify(p string, b baseCase) string {
 	}
 	if strings.ContainsAny(p, "(),:'") {
 		f = append(f, "ror2-literal")
+	}
+	if strings.ContainsAny(p, "+@$=&!*") {
+		f = append(f, "sub-delim-literal")
 	}
 	if b.ctx != "" {
 		f = append(f, "ctx")
